@@ -10,6 +10,7 @@
 (*   Pragma        (pragma :warn-on-core-shadow False) in the current scope  *)
 (*   Call(n)       a call of n: which definition does it expand to?          *)
 (*   EvalCall(n)   hy.eval of a call of n with a `macros` argument           *)
+(*   EvalLocal(n)  hy.eval of code that defines n as a local macro and calls it *)
 (* Every definition gets a fresh tag, so a call's expansion identifies the   *)
 (* definition that was chosen.  The specification resolves a call in the     *)
 (* documented order: hy.eval's macros argument, local macros from innermost  *)
@@ -101,6 +102,13 @@ Call(n) == /\ hist' = Append(hist, [ev |-> "call", n |-> n, tag |-> 0, res |-> R
 EvalCall(n, x) == /\ hist' = Append(hist, [ev |-> IF x THEN "evalx" ELSE "eval", n |-> n, tag |-> 0, res |-> 0, lvl |-> Len(loc)])
                   /\ UNCHANGED <<modM, loc, warnflag, nextTag, warned>>
 
+\* hy.eval of code that itself defines a local macro n (tag InnerTag) in a scope of its own and calls it there:
+\* the macros argument is looked up before local macros; without it the local definition is the first found
+InnerTag == 700
+EvalLocal(n, x) == /\ hist' = Append(hist, [ev |-> IF x THEN "evallocx" ELSE "evalloc", n |-> n, tag |-> 0,
+                                             res |-> IF x THEN ExtraTag ELSE InnerTag, lvl |-> Len(loc)])
+                   /\ UNCHANGED <<modM, loc, warnflag, nextTag, warned>>
+
 Next == /\ Len(hist) < MaxEvents
         /\ (Len(hist) + Len(loc) < MaxEvents \/ loc # <<>>)     \* leave room to close the open scopes
         /\ IF Focus = "nest"
@@ -110,6 +118,7 @@ Next == /\ Len(hist) < MaxEvents
                   \/ Enter \/ Exit \/ Pragma
                   \/ \E n \in {"m", "when", "do-mac", "a", "bb", "S.a", "p.a", "_c", "S2.a", "S2.b", "S._c", "b"} : Call(n)
                   \/ \E n \in {"m", "when", "a"} : \E x \in BOOLEAN : EvalCall(n, x)
+                  \/ \E n \in {"m", "a"} : \E x \in BOOLEAN : EvalLocal(n, x)
 Spec == Init /\ [][Next]_vars
 
 \* ---- laws
@@ -149,6 +158,8 @@ EvalTag(i) ==
   ELSE IF hist[i].n \in Core THEN CoreTag ELSE NoMacro
 Final == [i \in 1..Len(hist) |->
             IF hist[i].ev \in {"eval", "evalx"} THEN [hist[i] EXCEPT !.res = EvalTag(i)] ELSE hist[i]]
-Export == (Done /\ \E i \in 1..Len(hist) : hist[i].ev \in {"call", "eval", "evalx"}) =>
+\* the macros argument of hy.eval wins over everything, local macros of the evaluated code included
+ExtraFirst == \A i \in 1..Len(hist) : hist[i].ev \in {"evalx", "evallocx"} => Final[i].res = ExtraTag
+Export == (Done /\ \E i \in 1..Len(hist) : hist[i].ev \in {"call", "eval", "evalx", "evalloc", "evallocx"}) =>
              PrintT(<<"HIST", ToJson([h |-> Final, warned |-> warned])>>)
 =============================================================================
